@@ -415,6 +415,7 @@ impl World {
 			}
 		}
 		self.nodes[n].synced_height = tip;
+		self.nodes[n].live_since_height = tip;
 		self.nodes[n].view = (0..=tip).map(|h| self.chain.block_at(h).header.block_hash()).collect();
 		if self.nodes[n].check_styles {
 			// a different delivery style after each restart
